@@ -102,3 +102,93 @@ pub proof fn lemma_pipeline_pointwise(cli: Cli, none_set: bool, v: Map<String, J
     assert(r =~= seq![r[0]].add(tail(r)));
     lemma_pipeline_concat(cli, none_set, v, m, seq![r[0]], tail(r));
 }
+
+// C08: the window of the first skip+take rows is the window of all rows — so a sorter that keeps only the skip+take rows it
+// would emit first (the top-N shortcut) cannot change what --skip/--take select, PROVIDED the capped sorter emits exactly the
+// first skip+take rows of the uncapped one (take_prefix below; that step is the bucket-machine lemma, see DESIGN §5 C08)
+pub proof fn lemma_window_len(s: nat, t: Option<nat>, r: Seq<Context>)
+    ensures window(s, t, r).len() <= r.len(),
+    decreases r.len(),
+{
+    if r.len() > 0 {
+        if s > 0 { lemma_window_len((s - 1) as nat, t, tail(r)); }
+        else if t is Some && t->0 > 0 { lemma_window_len(0, Some((t->0 - 1) as nat), tail(r)); }
+    }
+}
+pub proof fn lemma_window_of_prefix(s: nat, t: nat, r: Seq<Context>, n: int)
+    requires s + t <= n <= r.len(),
+    ensures window(s, Some(t), r.take(n)) == window(s, Some(t), r), // @obl THY.C08.window_of_prefix : C08
+    decreases r.len(),
+{
+    if r.len() == 0 { assert(r.take(n) =~= r); }
+    else if n == 0 {
+        assert(r.take(0).len() == 0);
+        assert(s == 0 && t == 0);
+    } else {
+        assert(tail(r.take(n)) =~= tail(r).take(n - 1));
+        assert(r.take(n)[0] == r[0]);
+        if s > 0 { lemma_window_of_prefix((s - 1) as nat, t, tail(r), n - 1); }
+        else if t > 0 { lemma_window_of_prefix(0, (t - 1) as nat, tail(r), n - 1); }
+    }
+}
+// C10: --unique as a pure function: what uniq_rows keeps are exactly the first occurrences
+// (1) a kept row's key was not seen before, (2) no two kept rows have the same key, (3) the kept rows are a subsequence of the
+// input in input order, (4) a row that is dropped has a key that was seen before (in `seen` or on an earlier row)
+pub open spec fn has_key(r: Seq<Context>, k: ContextKey) -> bool { exists|i: int| 0 <= i < r.len() && ctx_key(#[trigger] r[i]) == k }
+pub proof fn lemma_uniq_rows_first_occurrences(seen: Set<ContextKey>, r: Seq<Context>)
+    ensures
+        forall|i: int| 0 <= i < uniq_rows(seen, r).len() ==> !seen.contains(ctx_key(#[trigger] uniq_rows(seen, r)[i])),
+        forall|i: int, j: int| 0 <= i < j < uniq_rows(seen, r).len() ==> ctx_key(#[trigger] uniq_rows(seen, r)[i]) != ctx_key(#[trigger] uniq_rows(seen, r)[j]),
+        forall|i: int| 0 <= i < r.len() ==> (seen.contains(ctx_key(#[trigger] r[i])) || has_key(uniq_rows(seen, r), ctx_key(r[i]))),
+        forall|i: int| 0 <= i < uniq_rows(seen, r).len() ==> has_key(r, ctx_key(#[trigger] uniq_rows(seen, r)[i])), // @obl THY.C10.first_occurrences : C10
+    decreases r.len(),
+{
+    if r.len() > 0 {
+        let k0 = ctx_key(r[0]);
+        let t = tail(r);
+        if seen.contains(k0) {
+            lemma_uniq_rows_first_occurrences(seen, t);
+            let u = uniq_rows(seen, t);
+            assert forall|i: int| 0 <= i < r.len() implies (seen.contains(ctx_key(#[trigger] r[i])) || has_key(u, ctx_key(r[i]))) by {
+                if i > 0 { assert(r[i] == t[i - 1]); }
+            }
+            assert forall|i: int| 0 <= i < u.len() implies has_key(r, ctx_key(#[trigger] u[i])) by {
+                let j = choose|j: int| 0 <= j < t.len() && ctx_key(t[j]) == ctx_key(u[i]);
+                assert(r[j + 1] == t[j]);
+            }
+        } else {
+            let s2 = seen.insert(k0);
+            lemma_uniq_rows_first_occurrences(s2, t);
+            let u = uniq_rows(s2, t);
+            let res = seq![r[0]].add(u);
+            assert(uniq_rows(seen, r) == res);
+            assert forall|i: int| 0 <= i < res.len() implies !seen.contains(ctx_key(#[trigger] res[i])) by {
+                if i > 0 { assert(res[i] == u[i - 1]); assert(!s2.contains(ctx_key(u[i - 1]))); }
+            }
+            assert forall|i: int, j: int| 0 <= i < j < res.len() implies ctx_key(#[trigger] res[i]) != ctx_key(#[trigger] res[j]) by {
+                assert(res[j] == u[j - 1]);
+                if i == 0 { assert(!s2.contains(ctx_key(u[j - 1]))); } else { assert(res[i] == u[i - 1]); }
+            }
+            assert forall|i: int| 0 <= i < r.len() implies (seen.contains(ctx_key(#[trigger] r[i])) || has_key(res, ctx_key(r[i]))) by {
+                if i == 0 { assert(res[0] == r[0]); }
+                else {
+                    assert(r[i] == t[i - 1]);
+                    if s2.contains(ctx_key(t[i - 1])) {
+                        if !seen.contains(ctx_key(t[i - 1])) { assert(ctx_key(t[i - 1]) == k0); assert(res[0] == r[0]); }
+                    } else {
+                        let j = choose|j: int| 0 <= j < u.len() && ctx_key(u[j]) == ctx_key(t[i - 1]);
+                        assert(res[j + 1] == u[j]);
+                    }
+                }
+            }
+            assert forall|i: int| 0 <= i < res.len() implies has_key(r, ctx_key(#[trigger] res[i])) by {
+                if i == 0 { assert(ctx_key(r[0]) == ctx_key(res[0])); }
+                else {
+                    assert(res[i] == u[i - 1]);
+                    let j = choose|j: int| 0 <= j < t.len() && ctx_key(t[j]) == ctx_key(u[i - 1]);
+                    assert(r[j + 1] == t[j]);
+                }
+            }
+        }
+    }
+}
